@@ -3,7 +3,9 @@ package main
 import (
 	"fmt"
 	"math/rand"
+	"runtime"
 	"sort"
+	"strings"
 	"sync"
 	"sync/atomic"
 	"time"
@@ -103,7 +105,7 @@ func wrongTyped(r *rand.Rand) (value.Value, string) {
 }
 
 func c14(c *wk.Ctx) {
-	c.Note("rule", "each history: a freshly generated property level (int32, validator refuses negative values) on a Probe object; 3-6 clients over 1-3 sessions plus the service itself issue <= 60 (200 thorough) operations: GetLevel, SetLevel(unique valid value), SetLevel(negative), generic setProperty(level - by name or by numeric id -, wrongly typed value: string, long, float, uint, bool, list; or a valid value by id), service-side UpdateLevel(unique value / negative); one or two subscribers (SubscribeLevel) stay subscribed; the service keeps updating the object's other property (gain) all along. Call/return stamps come from one logical clock at the client boundary. Oracle: porcupine checks the history against a register model (accepted set/update -> state, invalid or wrongly typed write -> must be an error and state unchanged, get -> current state without error); a valid write that is refused is a violation; each continuously subscribed reader must receive exactly the set of accepted values, each once (missing decided by the quiescence detector). Stream faulty-link: 2-5 subscribers (some cancel and subscribe again first; in a third of the histories the object's generic statistics are switched on) on own connections to a stand-alone server whose listener is wrapped by the harness; the link towards one of them starts refusing writes (reads stay open, the server sees no disconnection), or stalls in the middle of one fan-out while a subscriber registered after it cancels; every subscriber also listens to the signal tick, which the service emits now and then; a sequential mix of client writes, service-side updates (some of them writing the value that is already stored), refused writes and reads follows (in a third of the histories no link fails), possibly with a subscriber joining: every subscriber on a healthy link receives exactly the accepted values, in order; reads return the last accepted value (the outcome reported to the writer is not judged). Stream wide: the properties label (str) and spot (a structure) hold unique values of 10 B - 40 KiB written concurrently by 2-3 clients and 1-3 goroutines of the service over unix / tcp, with subscribers on own connections and a reader: valid writes accepted, refused ones report an error, reads return an intact written value, the final read is some writer's last accepted value, every subscriber gets each accepted value once, intact. Distinct non-trivial = distinct histories with at least two overlapping operations and one accepted write.")
+	c.Note("rule", "each history: a freshly generated property level (int32, validator refuses negative values) on a Probe object; 3-6 clients over 1-3 sessions plus the service itself issue <= 60 (200 thorough) operations: GetLevel, SetLevel(unique valid value), SetLevel(negative), generic setProperty(level - by name or by numeric id -, wrongly typed value: string, long, float, uint, bool, list; or a valid value by id), service-side UpdateLevel(unique value / negative); one or two subscribers (SubscribeLevel) stay subscribed; 0-3 further clients, each on a connection of its own, subscribe while the operations are in flight and must receive every accepted write issued after their subscription was acknowledged, once; the service keeps updating the object's other property (gain) all along. Call/return stamps come from one logical clock at the client boundary. Oracle: porcupine checks the history against a register model (accepted set/update -> state, invalid or wrongly typed write -> must be an error and state unchanged, get -> current state without error); a valid write that is refused is a violation; each continuously subscribed reader must receive exactly the set of accepted values, each once (missing decided by the quiescence detector). Stream faulty-link: 2-5 subscribers (some cancel and subscribe again first; in a third of the histories the object's generic statistics are switched on) on own connections to a stand-alone server whose listener is wrapped by the harness; the link towards one of them starts refusing writes (reads stay open, the server sees no disconnection), or stalls in the middle of one fan-out while a subscriber registered after it cancels; every subscriber also listens to the signal tick, which the service emits now and then; a sequential mix of client writes, service-side updates (some of them writing the value that is already stored), refused writes and reads follows (in a third of the histories no link fails), possibly with a subscriber joining: every subscriber on a healthy link receives exactly the accepted values, in order; reads return the last accepted value (the outcome reported to the writer is not judged). Stream wide: the properties label (str) and spot (a structure) hold unique values of 10 B - 40 KiB written concurrently by 2-3 clients and 1-3 goroutines of the service over unix / tcp, with subscribers on own connections and a reader: valid writes accepted, refused ones report an error, reads return an intact written value, the final read is some writer's last accepted value, every subscriber gets each accepted value once, intact. Distinct non-trivial = distinct histories with at least two overlapping operations and one accepted write.")
 	var w *world
 	defer func() {
 		if w != nil {
@@ -204,6 +206,7 @@ func c14one(c *wk.Ctx, i int, rng *rand.Rand, w *world, name string) {
 	var mu sync.Mutex
 	var ops []porcupine.Operation
 	var accepted []int32
+	acceptedCall := map[int32]int64{} // accepted value -> clock when its write was issued
 	var refusedValid []string
 	record := func(client int, in c14in, call int64, out c14out) {
 		ret := now()
@@ -211,6 +214,7 @@ func c14one(c *wk.Ctx, i int, rng *rand.Rand, w *world, name string) {
 		ops = append(ops, porcupine.Operation{ClientId: client, Input: in, Call: call, Output: out, Return: ret})
 		if (in.Kind == "set" || in.Kind == "update") && !out.Err {
 			accepted = append(accepted, in.V)
+			acceptedCall[in.V] = call
 		}
 		if (in.Kind == "set" || in.Kind == "update") && out.Err {
 			refusedValid = append(refusedValid, fmt.Sprintf("%s(%d): %s", in.Kind, in.V, out.Msg))
@@ -341,6 +345,56 @@ func c14one(c *wk.Ctx, i int, rng *rand.Rand, w *world, name string) {
 		}
 	}()
 	defer func() { c.Count("updates_of_the_other_property_during_histories", atomic.LoadInt64(&gainUpdates)) }()
+	// late subscribers: 0-3 further clients, each on a connection of its own (hence a registration of its own at
+	// the object), subscribe WHILE the writes are in flight, shortly one after the other. From the moment its
+	// subscription is acknowledged each must receive every accepted write issued afterwards, once
+	type lateReader struct {
+		reader
+		ack int64 // clock when SubscribeLevel returned (0: it failed)
+		err error
+	}
+	var lates []*lateReader
+	for k := rng.Intn(4); k > 0; k-- {
+		s, err := w.session()
+		if err != nil {
+			c.Inconclusive("history", i, "session: "+err.Error())
+			return
+		}
+		defer s.Terminate()
+		p, err := proxyFor(s, ps, ps.objs[0])
+		if err != nil {
+			c.Inconclusive("history", i, "proxy: "+err.Error())
+			return
+		}
+		lr := &lateReader{}
+		lates = append(lates, lr)
+		yields := rng.Intn(400)
+		wg.Add(1)
+		go func() {
+			defer wg.Done()
+			<-start
+			for y := 0; y < yields; y++ {
+				runtime.Gosched()
+			}
+			cancel, ch, err := p.SubscribeLevel()
+			if err != nil {
+				lr.err = err
+				return
+			}
+			lr.cancel = cancel
+			lr.ack = now()
+			atomic.AddInt64(&progress, 1)
+			go func() {
+				for v := range ch {
+					lr.mu.Lock()
+					lr.got = append(lr.got, v)
+					lr.mu.Unlock()
+					atomic.AddInt64(&progress, 1)
+				}
+				atomic.StoreInt32(&lr.closed, 1)
+			}()
+		}()
+	}
 	close(start)
 	done := make(chan struct{})
 	go func() { wg.Wait(); close(otherStop); <-otherDone; close(done) }()
@@ -424,6 +478,72 @@ func c14one(c *wk.Ctx, i int, rng *rand.Rand, w *world, name string) {
 		}
 		rd.cancel()
 	}
+	mu.Lock()
+	callOf := map[int32]int64{}
+	for v, st := range acceptedCall {
+		callOf[v] = st
+	}
+	mu.Unlock()
+	lateOwed := 0
+	for k, lr := range lates {
+		if lr.err != nil {
+			if !strings.Contains(lr.err.Error(), "consumer blocked") {
+				c.Viol("history", i, "subscribe=error/late", fmt.Sprintf("late subscriber %d: SubscribeLevel failed while writes were in flight: %v", k, lr.err), detail)
+			}
+			continue
+		}
+		owed := map[int32]bool{}
+		for a := range want {
+			if callOf[a] > lr.ack {
+				owed[a] = true
+			}
+		}
+		lateOwed += len(owed)
+		lcomplete := func() bool {
+			lr.mu.Lock()
+			defer lr.mu.Unlock()
+			have := map[int32]bool{}
+			for _, g := range lr.got {
+				have[g] = true
+			}
+			for a := range owed {
+				if !have[a] {
+					return false
+				}
+			}
+			return true
+		}
+		lv, _ := stuck.WaitFunc(lcomplete, &progress, 3*time.Minute)
+		lr.mu.Lock()
+		cnt := map[int32]int{}
+		for _, g := range lr.got {
+			cnt[g]++
+		}
+		lr.mu.Unlock()
+		for g, n := range cnt {
+			if !want[g] {
+				c.Viol("history", i, "event=for-rejected-or-unknown-write/late-subscriber", fmt.Sprintf("late subscriber %d received a change event carrying %d, which no accepted write wrote", k, g), detail)
+				break
+			}
+			if n > 1 {
+				c.Viol("history", i, "event=duplicate/late-subscriber", fmt.Sprintf("late subscriber %d received the change event for value %d %d times", k, g, n), detail)
+				break
+			}
+		}
+		if lv == stuck.Stuck {
+			for a := range owed {
+				if cnt[a] == 0 {
+					c.Viol("history", i, "event=missing/late-subscriber", fmt.Sprintf("a client subscribed while writes were in flight (acknowledged at clock %d, %d other late subscribers) never received the change event of accepted write %d, issued at clock %d", lr.ack, len(lates)-1, a, callOf[a]), detail)
+					break
+				}
+			}
+		} else if lv == stuck.Watchdog {
+			c.Inconclusive("history", i, "watchdog (late subscriber)")
+		}
+		lr.cancel()
+	}
+	c.Count("late_subscribers_(subscribed_while_writes_were_in_flight)", int64(len(lates)))
+	c.Count("accepted_writes_issued_after_a_late_subscription_was_acknowledged", int64(lateOwed))
 	if sv == stuck.Watchdog {
 		c.Inconclusive("history", i, "watchdog (events)")
 	}
